@@ -47,6 +47,60 @@ CHUNKSIZES_SPEC = "lambda records_per_chunk, n_records, n_chunks: [records_per_c
 NCHUNKS_SPEC = "lambda records_per_chunk, n_records: math.ceil(n_records / records_per_chunk)"
 
 
+_BR = [(100 * i + 720, 100 * i + 800) for i in range(7)]
+_BR2 = [(0, 10), (10, 30), (30, 35), (35, 80), (80, 81)]
+
+
+def _py_selected(byte_ranges, indexer):
+    if isinstance(indexer, int):
+        rows = [indexer]
+    elif isinstance(indexer, slice):
+        rows = list(range(len(byte_ranges))[indexer])
+    else:
+        rows = list(indexer)
+    pairs = list(enumerate(byte_ranges))
+    return [pairs[r] for r in rows]
+
+
+def _py_groupby(byte_ranges, chunksize):
+    out = {}
+    for i, r in byte_ranges:
+        out.setdefault(i // chunksize, []).append(r)
+    return out
+
+
+def _py_chunk_ranges(byte_ranges, chunks):
+    parts = [byte_ranges[i:i + chunks] for i in range(0, len(byte_ranges), chunks)]
+    return {n: (min(a for a, _ in p), max(b for _, b in p)) for n, p in enumerate(parts)}
+
+
+# python specifications and representatives (one per class of indexer / ordering of sizes) of the parametric helpers
+REPRESENTATIVES = {
+    "compute_selected_ranges": (_py_selected, [(b, i) for b in (_BR, _BR2) for i in (0, 3, 4, -1, 9, slice(None), slice(1, 4), slice(0, 5, 2), slice(4, 1, -1), slice(None, None, -1),
+                                                                                     slice(2, 2), slice(3, 100), slice(-3, None), [4, 1], [], [0, 0], [2, 3, 4])]),
+    "groupby_chunks": (_py_groupby, [(_py_selected(_BR, s), c) for s in (slice(None), slice(1, 6), [0, 6], [5], []) for c in (1, 2, 3, 7, 10)]),
+    "compute_chunk_ranges": (_py_chunk_ranges, [(b, c) for b in (_BR, _BR2, _BR[:1]) for c in (1, 2, 3, 5, 7, 8)]),
+    "compute_chunk_offsets": (lambda b, c: {n: {"offset": lo, "size": hi - lo} for n, (lo, hi) in _py_chunk_ranges(b, c).items()}, [(b, c) for b in (_BR, _BR2) for c in (1, 2, 3, 7, 8)]),
+    "to_offset_size": (lambda r: {i: {"offset": a, "size": b - a} for i, (a, b) in r.items()}, [({0: (720, 1000), 1: (1020, 1300)},), ({},), ({3: (5, 5)},)]),
+    "relocate_ranges": (lambda ci, rs: (ci, [(a - ci["offset"], b - ci["offset"]) for a, b in rs]), [({"offset": 720, "size": 300}, [(820, 900), (920, 1000)]), ({"offset": 0, "size": 1}, []), ({"offset": 5, "size": 9}, [(5, 14)])]),
+    "extract_ranges": (lambda c, rs: [c[a:b] for a, b in rs], [(b"0123456789", [(1, 3), (4, 8)]), (b"0123456789", []), (b"0123456789", [(0, 10), (9, 10), (3, 3)])]),
+    "merge_chunk_info": (lambda sel, co: [(co[i], r) for i, r in sel.items()], [({0: [(1, 2)], 2: [(3, 4)]}, {0: {"offset": 1, "size": 2}, 1: {"offset": 9, "size": 9}, 2: {"offset": 3, "size": 2}}), ({}, {0: {"offset": 1, "size": 2}})]),
+}
+
+
+def decide_on_representatives(repo, fi, name):
+    """-> (True, n) | (False, text); raises AnalysisError when the interpreter cannot fold"""
+    from .. import repeval
+    if name not in REPRESENTATIVES:
+        return None
+    spec, cases = REPRESENTATIVES[name]
+    verdict, info = repeval.agree(repo, fi, spec, cases)
+    if verdict == "equal":
+        return True, info
+    args, got, want = info
+    return False, f"{name}{tuple(args)!r:.120} gives {got!r:.160}, the specification {want!r:.160}"
+
+
 def normal_form_equal(fi, spec_src):
     try:
         p1, got = summarize(fi.node)
@@ -139,11 +193,19 @@ def r2(chk, repo):
             if kind == "assign" and isinstance(val, ast.Call) and norm(val.func) in ("np.frombuffer", "numpy.frombuffer"):
                 raw_names.add(name)
                 # the buffer and dtype are the function's content and the table entry
-                ok = val.args and norm(val.args[0]) == pd.positional_params[0]
-                d = flow.expand(val.args[1]) if len(val.args) > 1 else None
-                ok = ok and d is not None and "raw_dtypes" in norm(d) and pd.positional_params[1] in norm(d)
-                chk.require(ok, "C01-R2", where, "np.frombuffer(content, raw_dtypes[type_code])",
-                            f"samples are decoded with {short(val, 70)}: not the table entry of the type code", key="parse_data:frombuffer")
+                kw = {k.arg: k.value for k in val.keywords if k.arg}
+                buf = val.args[0] if val.args else kw.get("buffer")
+                dt = val.args[1] if len(val.args) > 1 else kw.get("dtype")
+                from ..dataflow import wired
+                content, tcode = pd.positional_params[0], pd.positional_params[1]
+                v_buf, t_buf = wired(flow, buf, content)
+                v_dt, t_dt = wired(flow, dt, [f"raw_dtypes[{tcode}]", f"raw_dtypes.get({tcode})"]) if dt is not None else ("different", "float (numpy's default)")
+                if v_dt == "unknown" and t_dt.replace(" ", "") in (f"raw_dtypes.get({tcode})", f"raw_dtypes.get({tcode},None)"):
+                    v_dt = "equal"
+                if "unknown" in (v_buf, v_dt):
+                    raise AnalysisError(f"{where}: np.frombuffer({t_buf}, {t_dt}): the decode dtype is computed rather than looked up; not decided")
+                chk.require(v_buf == "equal" and v_dt == "equal", "C01-R2", where, "np.frombuffer(content, raw_dtypes[type_code])",
+                            f"samples are decoded with np.frombuffer({t_buf}, {t_dt}): not the table entry of the type code", key="parse_data:frombuffer")
     if not raw_names:
         raise AnalysisError("anchor vanished: np.frombuffer in parse_data")
     derived = flow.names_derived_from(raw_names)
@@ -533,19 +595,34 @@ def r7(chk, repo):
             and [norm(a) for a in it.args[0].args] == [cr.positional_params[1], cr.positional_params[0]] and isinstance(g.target, ast.Tuple) and norm(ret.key) == norm(g.target.elts[0])
     chk.require(ok, "C01-R7", f"{am.relpath}:compute_chunk_ranges", "offsets table key = index of partition_all(chunks, byte_ranges)",
                 f"offsets table is keyed by {short(ret, 80) if ret is not None else None}", key="compute_chunk_ranges:key")
-    # selected rows carry their absolute row index
+    # selected rows carry their absolute row index: decided with the specification of compute_selected_ranges
     sr = am.func("compute_selected_ranges")
-    rets = [n for n in sr.own_nodes() if isinstance(n, ast.Return)]
-    ok = len(rets) == 1 and "enumerate(byte_ranges)" in norm(rets[0].value)
-    chk.require(ok, "C01-R7", f"{am.relpath}:compute_selected_ranges", "selected rows are (row index, byte range) pairs from enumerate(byte_ranges)",
-                "selected rows do not carry the absolute row index", key="compute_selected_ranges:enumerate")
+    try:
+        same, got, want = normal_form_equal(sr, SPECS["compute_selected_ranges"])
+        res = (same, f"normal form {got[:120]}")
+    except AnalysisError:
+        res = decide_on_representatives(repo, sr, "compute_selected_ranges")
+    chk.require(res[0], "C01-R7", f"{am.relpath}:compute_selected_ranges", "selected rows are (absolute row index, byte range) pairs",
+                f"selected rows do not carry the absolute row index: {res[1]}", key="compute_selected_ranges:enumerate")
 
 
 def r8(chk, repo):
     am = repo.module(ARRAY)
     for name, spec in SPECS.items():
         fi = am.func(name)
-        same, got, want = normal_form_equal(fi, spec)
+        try:
+            same, got, want = normal_form_equal(fi, spec)
+        except AnalysisError as e:
+            # the normal forms have different shapes: decide the (parametric) helper on representatives instead
+            try:
+                res = decide_on_representatives(repo, fi, name)
+            except AnalysisError as e2:
+                raise AnalysisError(f"{e}; evaluation on representatives: {e2}")
+            if res is None:
+                raise
+            chk.require(res[0], "C01-R8", f"{am.relpath}:{name}", f"{name} agrees with its specification on all {res[1]} representatives of its input classes (normal forms differ in shape)",
+                        f"{name} differs from its specification: {res[1]}", key=f"spec:{name}", sample={"function": name, "decided": "representatives"})
+            continue
         chk.require(same, "C01-R8", f"{am.relpath}:{name}", f"{name} == specification ({want[:90]})",
                     f"{name} computes {got[:160]} but the specification is {want[:160]}", key=f"spec:{name}", sample={"function": name, "normal form": got[:160]})
     io = repo.module(IMG_IO)
